@@ -40,6 +40,7 @@ type sessions struct {
 func (s *sessions) get(h Header) (Handler, error) {
 	if err := ClientSequenceNumber(h.SeqNo).Validate(nil); err != nil {
 		s.delete(h.SessionID)
+		vhook("s.get", s, uint32(h.SessionID), int(h.SeqNo), "parity", 0, len(s.known))
 		return nil, fmt.Errorf("sessionID [%v] sequence number is corrupted; %v", h.SessionID, err)
 	}
 	s.Lock()
@@ -47,12 +48,15 @@ func (s *sessions) get(h Header) (Handler, error) {
 	sc, ok := s.known[h.SessionID]
 	if !ok {
 		sessionsGetMiss.Inc()
+		vhook("s.get", s, uint32(h.SessionID), int(h.SeqNo), "miss", 0, len(s.known))
 		return nil, nil
 	}
 	if err := LastSequence(sc.header.SeqNo).Validate(h.SeqNo); err != nil {
+		vhook("s.get", s, uint32(h.SessionID), int(h.SeqNo), "stale", int(sc.header.SeqNo), len(s.known))
 		return nil, fmt.Errorf("sessionID [%v] sequence number is mismatched; %v", h.SessionID, err)
 	}
 	sessionsGetHit.Inc()
+	vhook("s.get", s, uint32(h.SessionID), int(h.SeqNo), "hit", int(sc.header.SeqNo), len(s.known))
 	return sc.Handler, nil
 }
 
@@ -71,6 +75,7 @@ func (s *sessions) set(h Header, n Handler) {
 		sessionDurations.Observe(ms)
 	}))
 	s.known[h.SessionID] = &sessionContext{header: h, Handler: n, timer: timer}
+	vhook("s.set", s, uint32(h.SessionID), int(h.SeqNo), len(s.known))
 }
 
 // update a session id and next handler.
@@ -85,6 +90,7 @@ func (s *sessions) update(h Header, n Handler) {
 	sc.header = h
 	sc.Handler = n
 	s.known[h.SessionID] = sc
+	vhook("s.upd", s, uint32(h.SessionID), int(h.SeqNo), len(s.known))
 }
 
 // delete a session
@@ -96,6 +102,7 @@ func (s *sessions) delete(session SessionID) {
 		sc.timer.ObserveDuration()
 	}
 	delete(s.known, session)
+	vhook("s.del", s, uint32(session), len(s.known))
 }
 
 // close will stop all prom timers, it's the only reason we have this
@@ -103,6 +110,7 @@ func (s *sessions) close() {
 	for _, r := range s.known {
 		r.timer.ObserveDuration()
 	}
+	vhook("s.close", s, len(s.known))
 }
 
 // waitGroup wraps sync.WaitGroup and exposes
